@@ -58,6 +58,20 @@ Definition kind_const (k : nat) : str :=
 Definition is_manifest_kind (k : nat) : bool :=
   existsb (str_eqb (kind_const k)) IsManifest_cases.
 
+(* which media types have a subject field that the store reads (manifestutil.Subject), which
+   predecessors registry.Referrers looks at, which media types have successors at all
+   (content.Successors): the case lists of the three media-type switches *)
+Definition kind_has_subject (k : nat) : bool := existsb (str_eqb (kind_const k)) c09_subject_cases.
+Definition kind_is_referrer_type (k : nat) : bool := existsb (str_eqb (kind_const k)) c09_referrers_cases.
+Definition kind_has_successors (k : nat) : bool := existsb (str_eqb (kind_const k)) c09_successors_cases.
+(* the model has ONE subject function for the subject walk of gcIndex, heldBySurvivor (both
+   manifestutil.Subject) and the referrers of Delete (registry.Referrers): adequate iff the two
+   switches accept the same media types; every manifest media type has successors *)
+Definition subject_tables_agree : bool :=
+  forallb (fun k => Bool.eqb (kind_has_subject k) (kind_is_referrer_type k)) [0; 1; 2; 3; 4; 5] &&
+  forallb (fun k => Bool.eqb (is_manifest_kind k) (kind_has_successors k)) [0; 1; 2; 3; 4; 5] &&
+  forallb (fun k => implb (kind_has_subject k) (is_manifest_kind k)) [0; 1; 2; 3; 4; 5].
+
 (* Order of effects, read off the call sequences that the translator extracts from the Go
    functions (c09_calls_gc / c09_calls_delete in Generated/GC09.v): does a call to [a] come
    before the first call to [c]? *)
